@@ -39,6 +39,12 @@ func (f fileNameKeyerFunc) KeyFromFileName(name string) (string, error) { return
 // 48 is chosen so that 5 fragments fit within 240 chars, well under common filesystem limits.
 const fragmentSize = 48
 
+// dirMarker ends the name of every directory fragment. It is not part of the
+// base64url alphabet, so no file name (which consists of that alphabet only)
+// can equal a directory name: the file of one key never occupies the place of
+// a directory another key needs, whatever prefixes the keys share.
+const dirMarker = "+"
+
 // fragmentingFileNamer returns a fileNamer that fragments long keys into directory structures.
 // This helps avoid filesystem limits on filename lengths.
 func fragmentingFileNamer() fileNamer {
@@ -51,11 +57,16 @@ func fragmentFileName(key string) string {
 		return encoded
 	}
 
-	// Fragment the encoded string
+	// Fragment the encoded string; all fragments but the last are directories
+	const size = fragmentSize - len(dirMarker)
 	var parts []string
-	for i := 0; i < len(encoded); i += fragmentSize {
-		end := min(i+fragmentSize, len(encoded))
-		parts = append(parts, encoded[i:end])
+	for i := 0; i < len(encoded); i += size {
+		end := min(i+size, len(encoded))
+		part := encoded[i:end]
+		if end < len(encoded) {
+			part += dirMarker
+		}
+		parts = append(parts, part)
 	}
 	return filepath.Join(parts...)
 }
@@ -66,6 +77,8 @@ func fragmentingFileNameKeyer() fileNameKeyer {
 
 var filepathSeparatorReplacer = strings.NewReplacer(
 	string(filepath.Separator),
+	"",
+	dirMarker,
 	"",
 )
 
